@@ -9,6 +9,75 @@ func init() {
 	builders["C14"] = specC14
 	builders["C13"] = specC13
 	builders["C15"] = specC15
+	builders["C11"] = specC11
+}
+
+var c11mnemonics = []string{"add", "addi", "and", "andi", "auipc", "beq", "beqz", "bge", "bgeu", "ble", "blt", "bltu", "bne", "bnez", "div", "j", "jal", "jalr", "lui", "lb", "lh", "li", "lw",
+	"nop", "mul", "mv", "or", "ori", "rem", "ret", "sb", "sh", "sll", "slli", "slt", "sltu", "slti", "sra", "srai", "srl", "srli", "sub", "sw", "xor", "xori"}
+
+func specC11(l *Loaded, tier string, seed int64) (*Spec, error) {
+	var jobs []*Job
+	si := strconv.Itoa
+	nT, nFree, nOp, nLines := 4, 4, 6, 2
+	if tier == "thorough" {
+		nT, nFree, nOp, nLines = 6, 5, 8, 3
+	}
+	// (T) totality: "<mnemonic> " + n arbitrary ASCII bytes, every length 0..nT
+	for _, mn := range c11mnemonics {
+		for n := 0; n <= nT; n++ {
+			jobs = append(jobs, &Job{Pkg: "risc", Fn: "VerifC11Totality", Key: fmt.Sprintf("total|%s|n%d", mn, n), Covers: []string{"parsed"}, MaxPaths: 400_000, MaxConc: 8,
+				Params: map[string]string{"prefix": mn + " ", "n": si(n), "two": "0"}})
+		}
+	}
+	// mnemonic-free lines and load/store operand shapes
+	for n := 0; n <= nFree; n++ {
+		jobs = append(jobs, &Job{Pkg: "risc", Fn: "VerifC11Totality", Key: fmt.Sprintf("total|free|n%d", n), Covers: []string{"parsed"}, MaxPaths: 400_000, MaxConc: 8,
+			Params: map[string]string{"prefix": "", "n": si(n), "two": "0"}})
+	}
+	for _, pre := range []string{"lw t0, ", "sw t0, 4", "lw t0, 0(", "sb t1, -1(t", "lh t0,"} {
+		for n := 0; n <= 3; n++ {
+			jobs = append(jobs, &Job{Pkg: "risc", Fn: "VerifC11Totality", Key: fmt.Sprintf("total|%q|n%d", pre, n), Covers: []string{"parsed"}, MaxPaths: 400_000, MaxConc: 8,
+				Params: map[string]string{"prefix": pre, "n": si(n), "two": "0"}})
+		}
+	}
+	// two-line inputs
+	for _, p := range [][2]string{{"", ""}, {"x", "add t0, t1, t"}, {"L", "j "}, {"ret", ""}} {
+		for n := 1; n <= 2; n++ {
+			jobs = append(jobs, &Job{Pkg: "risc", Fn: "VerifC11Totality", Key: fmt.Sprintf("total2|%q+%q|n%d", p[0], p[1], n), Covers: []string{"parsed"}, MaxPaths: 400_000, MaxConc: 8,
+				Params: map[string]string{"prefix": p[0], "n": si(n), "two": "1", "prefix2": p[1], "n2": si(n)}})
+		}
+	}
+	// (O) operand parsers alone
+	for which := 0; which < 2; which++ {
+		for n := 0; n <= nOp; n++ {
+			if which == 1 && n > 5 {
+				continue
+			}
+			jobs = append(jobs, &Job{Pkg: "risc", Fn: "VerifC11Operand", Key: fmt.Sprintf("operand|%s|n%d", []string{"offset-reg", "register"}[which], n), Covers: []string{"end"}, MaxPaths: 400_000, MaxConc: 8,
+				Params: map[string]string{"which": si(which), "n": si(n)}})
+		}
+	}
+	jobs = append(jobs, &Job{Pkg: "risc", Fn: "VerifC11Registers", Key: "register-table", Covers: []string{"end"}})
+	// (L) layout: one job per (register set, kinds of the first two lines)
+	regsets := [][2]string{{"t0,a0,s11", "0"}}
+	if tier == "thorough" {
+		regsets = append(regsets, [2]string{"t0,a0,s11", "1"}, [2]string{"zero,ra,t6", "0"}, [2]string{"s10,sp,a7", "0"})
+	}
+	for _, rs := range regsets {
+		for k0 := 0; k0 < 9; k0++ {
+			for k1 := 0; k1 < 9; k1++ {
+				jobs = append(jobs, &Job{Pkg: "risc", Fn: "VerifC11Layout", Key: fmt.Sprintf("layout|%s|$%s|lines%d|kinds=%d.%d", rs[0], rs[1], nLines, k0, k1), Named: map[string]int{"kind0": k0, "kind1": k1}, MaxPaths: 400_000, MaxConc: 8,
+					Params: map[string]string{"lines": si(nLines), "regs": rs[0], "dollar": rs[1]}})
+			}
+		}
+	}
+	return &Spec{Jobs: jobs,
+		Rule:   "risc.Parse executed on strings whose bytes are SMT variables: (T) '<mnemonic> ' + every length 0..n of arbitrary ASCII bytes for all 45 mnemonics, mnemonic-free lines, load/store operand prefixes and two-line inputs (no panic; error means no program; accepted means instruction count = instruction lines by the harness's own classification); (O) parseOffsetReg/parseRegister alone; (L) 2-3 line programs with symbolic indentation, mnemonic case bits, separators, comments and decimal digits, decoded operands probed through the instruction API",
+		Bounds: map[string]interface{}{"symbolic_bytes_after_mnemonic": nT, "free_line_bytes": nFree, "operand_parser_bytes": nOp, "layout_lines": nLines, "bytes": "ASCII (< 0x80)"},
+		Assumptions: []string{"bytes < 0x80 (Go's TrimSpace/ToLower treat other bytes through UTF-8 decoding, not modelled)", "engine models of strings.TrimSpace/Split/Index/IndexRune/ToLower and strconv.ParseInt(base 10) over byte sequences (listed in DESIGN §2.4)",
+			"comments are full-line or follow an instruction after a space; indentation is leading spaces/tabs", "decimal immediates of two digits with optional sign in the layout harness"},
+		Outside: []string{"inputs longer than the stated bounds", "non-ASCII bytes", "duplicate labels (the later one wins; not covered by the statement)"},
+	}, nil
 }
 
 func specC15(l *Loaded, tier string, seed int64) (*Spec, error) {
@@ -34,7 +103,7 @@ func specC15(l *Loaded, tier string, seed int64) (*Spec, error) {
 		}
 	}
 	return &Spec{Jobs: jobs,
-		Rule: "bounded-exhaustive histories (forks on vp.Choice and on every tag comparison) over the real Context transaction map / rename table and the bare comp.RAT with rings 2 and 3; values and tags are SMT variables, expected values come from a list of tagged writes",
+		Rule:   "bounded-exhaustive histories (forks on vp.Choice and on every tag comparison) over the real Context transaction map / rename table and the bare comp.RAT with rings 2 and 3; values and tags are SMT variables, expected values come from a list of tagged writes",
 		Bounds: map[string]interface{}{"history_length": k, "ring_history_length": kr, "registers": 2, "rings": "10 (inside Context), 2 and 3 (bare RAT)", "tags": "any int32 in (0, 2^20), pairwise distinct per register"},
 		Assumptions: []string{"tags are positive (0 means 'no tag' in registerRead)", "one instruction writes a register once (tags of pending writes to one register are distinct)",
 			"the strong clauses are asserted only while the uncommitted writes to one register do not exceed the slots (1 for the map, ring length for the table)",
